@@ -14,6 +14,11 @@ _FORMATTER = string.Formatter()
 MAX_INLINE_DEPTH = 12
 
 
+DEEPCOPY_NOTE = ('copy.deepcopy: a fresh object graph of the same classes, disjoint from every existing object: at the time of the copy every '
+                 'reference, list and dict stored in a copied object is itself a copy, and every str / int / bool / None attribute equals the '
+                 "original's (custom __deepcopy__ hooks are not modelled)")
+
+
 class Return(Exception):
     def __init__(self, value):
         self.value = value
@@ -439,8 +444,10 @@ class CallOps:
             st.assume(mk_eq("(len %s)" % q, "(len %s)" % self.seq_of(v)), 'lib')
             st.seqh = mk_store(self.seqheap(), a0, q)
             st.bump('SEQ')
-            self.lib_assumptions.add('copy.deepcopy: a fresh object graph of the same class (contents unconstrained), disjoint from every existing object')
-            return SV('list', a0, v.ty, extra={'deepfresh': (a0, a1)})
+            self.lib_assumptions.add(DEEPCOPY_NOTE)
+            k = st.decls.fresh_fun('orig', ['Int'], 'Int')
+            df = (a0, a1, dict(st.heap), st.seqh, k, self.seq_of(v))
+            return SV('list', a0, v.ty, extra={'deepfresh': df})
         if v.kind == 'ref':
             # over-approximation: an arbitrary fresh object graph of the same class; everything reachable from the copy
             # lies in a block of addresses allocated by the copy (its contents are not related to the original's)
@@ -452,8 +459,11 @@ class CallOps:
             st.assume(mk_lt(a0, a1), 'alloc')
             st.alloc = a1
             st.assume(mk_eq("(cls %s)" % a0, "(cls %s)" % v.term), 'alloc')
-            self.lib_assumptions.add('copy.deepcopy: a fresh object graph of the same class (contents unconstrained), disjoint from every existing object')
-            return SV('ref', a0, v.ty, extra={'deepfresh': (a0, a1)})
+            self.lib_assumptions.add(DEEPCOPY_NOTE)
+            k = st.decls.fresh_fun('orig', ['Int'], 'Int')
+            st.assume(mk_eq("(%s %s)" % (k, a0), v.term), 'lib')
+            df = (a0, a1, dict(st.heap), self.seqheap(), k, None)
+            return SV('ref', a0, v.ty, extra={'deepfresh': df})
         raise Unsupported('deepcopy of %s' % v.kind, node)
 
     # ------------------------------------------------------------ method calls on values
@@ -835,10 +845,10 @@ class CallOps:
             n = "(len %s)" % q
             st.oblige(mk_lt('0', n), 'pop from non-empty list', ln)
             if idx.const == 0:
-                item = self.unbox("(at %s 0)" % q, self.elem_ty(xs))
+                item = self.elem_unbox(xs, "(at %s 0)" % q, self.elem_ty(xs))
                 nq = self.s_slice(q, '1', n)
             else:
-                item = self.unbox("(at %s %s)" % (q, mk_sub(n, '1')), self.elem_ty(xs))
+                item = self.elem_unbox(xs, "(at %s %s)" % (q, mk_sub(n, '1')), self.elem_ty(xs))
                 nq = self.s_slice(q, '0', mk_sub(n, '1'))
             self.list_set_seq(xs, nq)
             return item
@@ -984,7 +994,7 @@ class CallOps:
                 return dict(concrete=list(v.elems), count=None, item=None, sv=v)
             q = self.seq_of(v)
             ety = self.elem_ty(v)
-            return dict(concrete=None, count="(len %s)" % q, item=lambda j: self.unbox("(at %s %s)" % (q, j), ety), sv=v, seq=q)
+            return dict(concrete=None, count="(len %s)" % q, item=lambda j: self.elem_unbox(v, "(at %s %s)" % (q, j), ety), sv=v, seq=q)
         if v.kind == 'str' and v.is_const:
             return dict(concrete=[self.const(c) for c in v.const], count=None, item=None)
         if v.kind == 'str' and v.ty and set(v.ty) <= {'estr'}:
